@@ -2,6 +2,7 @@ P = dict(
     bin="egv_c03", trace="Trace_C03", level="model_checking",
     mc=[dict(module="MC_C03", quick_cfg="MC_C03.cfg", thorough_cfg="MC_C03.cfg"),
         dict(module="MC_C03", quick_cfg="MC_C03_control.cfg", expect_violation=True, coverage=False),
+        dict(module="MC_C03", quick_cfg="MC_C03_d22.cfg", expect_violation=True, coverage=False),
         dict(module="MC_C03", thorough_cfg="MC_C03_thorough.cfg", thorough_timeout=3000)],
     drift_checked=True,
     required_events=["stack", "op"],
